@@ -715,11 +715,12 @@ class BlobStorageMixin:
         with self._lock:
             self.fshelper.getPathForOID(oid, create=True)
             targetname = self.fshelper.getBlobFilename(oid, serial)
-            rename_or_copy_blob(blobfilename, targetname)
-
             # if oid already in there, something is really hosed.
-            # The underlying storage should have complained anyway
+            # The underlying storage should have complained anyway.
+            # Listed first: a file moved into place by a call that then
+            # fails (chmod, copy across partitions) has to go with an abort.
             self.dirty_oids.append((oid, serial))
+            rename_or_copy_blob(blobfilename, targetname)
 
     def storeBlob(self, oid, oldserial, data, blobfilename, version,
                   transaction):
